@@ -26,6 +26,18 @@ func C01(c *Ctx) int {
 	if err := c.TokenGameRound(fs, ps, RoundOpts{Label: "c01", MaxSteps: 10, MaxPerProg: 12}); err != nil {
 		c.Infraf("%v", err)
 	}
+	// level M: the generated programs made only of tasks, exclusive and parallel gateways (no loop:
+	// the flow bound) go through Engine.tla as well: every goroutine interleaving against the game
+	{
+		var fam []*prog.Program
+		for _, p := range ps {
+			if engineSupported(p) && !p.HasTag("loop") && len(p.Nodes) <= 12 && len(fam) < 10 {
+				fam = append(fam, p)
+			}
+		}
+		fam = append(fam, gen.ParallelNM(2, 2, false))
+		c.EngineRound(fam, EngineOpts{Label: "c01", MaxFlows: 12, NWaiters: 0, RunsPer: 2})
+	}
 	c.Extra["programs"] = len(ps)
 	c.Assumptions = append(c.Assumptions, "programs are block-structured and data-race-free by construction (a gateway reads only an input variable or the result of the decision task directly before it)")
 	return c.Finish("model_checking", "random block-structured programs (seeded); TLC enumerates all answer orders x result values per program (capped, seeded sample); each schedule replayed on the real engine and the recorded run validated by TokenGameTrace", false, fs)
